@@ -94,6 +94,8 @@ type cpGen struct {
 	usedIn  []int
 	usedOut []int
 	romData int
+	romWide int // index of a ROM datum written with every bit of the register size set (-1: none)
+	rsize   int
 	ramData int
 	sync    bool
 	so      bool     // a queue and a stack are attached (shared objects 0 and 1 of the processor)
@@ -138,7 +140,7 @@ func portSet(t *rapid.T, l string) []int {
 }
 
 func genCP(t *rapid.T, rsize int, movLit bool, name, sec string) *cpGen {
-	g := &cpGen{name: name, sec: sec, exp: unknownCP(), kinds: map[string]bool{}, sites: map[string]bool{}}
+	g := &cpGen{name: name, sec: sec, exp: unknownCP(), kinds: map[string]bool{}, sites: map[string]bool{}, romWide: -1, rsize: rsize}
 	g.sync = rapid.Bool().Draw(t, "sync")
 	var must []string
 	lit := func(l string) string {
@@ -366,6 +368,12 @@ func genCP(t *rapid.T, rsize int, movLit bool, name, sec string) *cpGen {
 		g.romData = d
 		g.exp.Data = d
 		g.kinds["romdata"] = true
+		g.romWide = -1
+		if rapid.IntRange(0, 2).Draw(t, "widedatum") == 0 {
+			// a datum as wide as a register: it fits the ROM word or the source must be refused
+			g.romWide = rapid.IntRange(0, d-1).Draw(t, "widedatum_at")
+			g.kinds["romdata-register-wide"] = true
+		}
 		must = append(must, fmt.Sprintf("%s r1, rom:k%d", litOp("lromsym"), d-1)) // the address of the last ROM datum
 		n++
 		if want < n {
@@ -493,6 +501,11 @@ func (g *cpGen) render(b *strings.Builder) {
 	if g.romData > 0 {
 		fmt.Fprintf(b, "%%section %s_rod .romdata\n", g.sec)
 		for k := 0; k < g.romData; k++ {
+			if k == g.romWide {
+				// (dd groups the bytes of its value four by four: at most 32 bits stay one cell)
+				fmt.Fprintf(b, "\tk%d dd 0x%x\n", k, min(maxImm(g.rsize), 0xffffffff))
+				continue
+			}
 			fmt.Fprintf(b, "\tk%d dd 0x%x\n", k, 0x10+k)
 		}
 		b.WriteString("%endsection\n")
